@@ -11,7 +11,10 @@ done
 .venv/bin/python - <<'PY'
 import json, jsonschema, glob
 sch = json.load(open('/root/.vp/EVIDENCE.schema.json'))
+claimed = {c['property_id'] for c in json.load(open('/verif/MANIFEST.json'))['checks']}
 for f in sorted(glob.glob('/verif/evidence/*.json')):
+    if f.split('/')[-1][:-5] not in claimed:
+        continue
     d = json.load(open(f)); jsonschema.validate(d, sch)
     c = d['coverage']
     assert d['violations'] == 0, f
